@@ -251,7 +251,7 @@ class Sim:
                                 {'line': w1, 'end': int(r.location.end), 'parsed_end': int(r2.location.end)})
 
     # ---- layouts -----------------------------------------------------------------------------
-    def op_layout(self, files, sort_tx, utf8_header=False):
+    def op_layout(self, files, sort_tx, utf8_header=False, no_final_newline=False):
         """files: list of (kind, [indices]); writes them, opens a pool without idx, builds idx, opens a
         second pool with idx."""
         self.close()
@@ -265,8 +265,12 @@ class Sim:
             if sort_tx:
                 ls.sort(key=workload.line_tx_id)
             p = d / f'{kind}{k}.gvf'
-            p.write_text(workload.gvf_text(
-                ls, kind == 'c', genome_fasta='/data/José/références/génome.fa' if utf8_header else None))
+            text = workload.gvf_text(
+                ls, kind == 'c', genome_fasta='/data/José/références/génome.fa' if utf8_header else None)
+            if no_final_newline and ls:
+                text = text.rstrip('\n')          # a file whose last record line is not newline-terminated
+                self.probe('no_final_newline')
+            p.write_text(text)
             self.files.append([p, kind == 'c', ls])
         if len(self.files) > 1:
             self.probe('layout_multi_file')
@@ -626,9 +630,9 @@ def make_machine(workdir_factory, lines, objs, trace_box, stats_box, log=None):
             self.do(('roundtrip', kind, i))
 
         @rule(files=st.lists(file_st, min_size=1, max_size=4), sort_tx=st.booleans(),
-              utf8_header=st.sampled_from([False, False, True]))
-        def layout(self, files, sort_tx, utf8_header):
-            self.do(('layout', [list(f) for f in files], sort_tx, utf8_header))
+              utf8_header=st.sampled_from([False, False, True]), no_nl=st.sampled_from([False, False, False, True]))
+        def layout(self, files, sort_tx, utf8_header, no_nl):
+            self.do(('layout', [list(f) for f in files], sort_tx, utf8_header, no_nl))
 
         @rule(name=st.sampled_from(['noidx', 'idx']), k=st.integers(0, 30), times=st.sampled_from([1, 1, 2, 3]))
         def load(self, name, k, times):
